@@ -143,6 +143,9 @@ def z3bool(v):
 _HQ_CACHE = {}
 
 
+FEASIBILITY_RLIMIT = 3000000
+
+
 def _has_quantifier(e):
     k = e.get_id()
     if k in _HQ_CACHE:
@@ -195,7 +198,9 @@ class Path(object):
 
     def _feasible(self, extra):
         s = z3.Solver()
-        s.set("timeout", 500)
+        # a RESOURCE limit, not a time-out: the answer (and with it the set of explored paths) is the same on an
+        # idle and on a busy machine, in every worker process
+        s.set("rlimit", FEASIBILITY_RLIMIT)
         # quantified hypotheses are left out: pruning only needs an over-approximation, and
         # the ground part answers in milliseconds
         for h in self.pc:
@@ -268,12 +273,14 @@ class Path(object):
 def explore(run, max_paths=4000, prune=True, shard=None):
     """Run ``run(path)`` for every decision script.  Returns the list of finished paths.
 
-    ``shard=(k, n)``: every shard runs the same (deterministic) first paths until at least ``n`` subtrees
-    are pending, then explores only the pending subtrees with index ≡ k (mod n); the shared first paths
-    are reported round-robin (path i by shard i mod n).  The union over the shards is exactly the unsharded exploration."""
-    stack = [[]]
+    Splitting one function's exploration over processes (``shard``):
+      ("frontier", n)   breadth-first until at least n subtrees are pending (or none is left); returns the paths run so
+                        far and leaves the pending decision prefixes in ``explore.pending`` for the caller to deal out;
+      ("subtrees", [prefix, ...])   explore exactly the subtrees below the given decision prefixes.
+    The frontier is computed ONCE (by one process) and the prefixes are handed over explicitly, so the union over the
+    workers is the unsharded exploration whatever the timing of the feasibility checks in the different processes."""
     done = []
-    count = 0
+    explore.pending = []
 
     def run_one(script):
         p = Path(script, prune=prune)
@@ -283,17 +290,18 @@ def explore(run, max_paths=4000, prune=True, shard=None):
             pass
         return p
 
-    if shard is not None and shard[1] > 1:
-        k, n = shard
+    if shard is not None and shard[0] == "frontier":
+        n = shard[1]
+        stack = [[]]
         while stack and len(stack) < n:
-            script = stack.pop(0)          # breadth first, to widen the frontier quickly
+            script = stack.pop(0)
             p = run_one(script)
-            if count % n == k:
-                done.append(p)
-            count += 1
+            done.append(p)
             for idx in reversed(p.branch_points):
                 stack.append(p.decisions[:idx] + [False])
-        stack = [s_ for i, s_ in enumerate(stack) if i % n == k]
+        explore.pending = stack
+        return done
+    stack = [list(x) for x in shard[1]] if (shard is not None and shard[0] == "subtrees") else [[]]
     while stack:
         script = stack.pop()
         p = run_one(script)
